@@ -2,6 +2,7 @@ package checks
 
 import (
 	"fmt"
+	"unicode/utf8"
 
 	"google.golang.org/protobuf/encoding/protowire"
 	"google.golang.org/protobuf/internal/impl"
@@ -105,6 +106,7 @@ func c06Input(c *core.Ctx, mt protoreflect.MessageType, name string, in []byte, 
 		err  error
 		snap string
 		init bool
+		m    protoreflect.Message
 	}
 	decode := func(buf []byte, nolazy, dyn bool) (res, bool) {
 		var out res
@@ -119,6 +121,7 @@ func c06Input(c *core.Ctx, mt protoreflect.MessageType, name string, in []byte, 
 					c.Violation("decode:partial-reported-initialized:"+name, detail())
 				}
 				out.snap = snapOf(m).String()
+				out.m = m
 			}
 		})
 		return out, ok
@@ -135,7 +138,12 @@ func c06Input(c *core.Ctx, mt protoreflect.MessageType, name string, in []byte, 
 				d := detail()
 				d["err"] = errStr(r.err)
 				d["nolazy"] = nolazy
-				c.Violation(fmt.Sprintf("decode:verdict:ref=%s:got-error=%v:%s", verdict, r.err != nil, name), d)
+				what := name
+				if verdict == model.VBadUTF8 && r.err == nil && onlyRepeatedStringExtOffends(r.m) {
+					// the recorded C13 defect, met with a mutated input
+					what = "repeated-string-extension-not-utf8-validated-on-fast-path"
+				}
+				c.Violation(fmt.Sprintf("decode:verdict:ref=%s:got-error=%v:%s", verdict, r.err != nil, what), d)
 			}
 		}
 	}
@@ -179,7 +187,11 @@ func c06Input(c *core.Ctx, mt protoreflect.MessageType, name string, in []byte, 
 		case impl.ValidationInvalid:
 			c.Count("validate:invalid")
 			if uerr == nil {
-				c.Violation("validate:invalid-but-unmarshal-succeeds:"+name, detail())
+				what := name
+				if verdict == model.VBadUTF8 && onlyRepeatedStringExtOffends(results[0].m) {
+					what = "repeated-string-extension-not-utf8-validated-on-fast-path"
+				}
+				c.Violation("validate:invalid-but-unmarshal-succeeds:"+what, detail())
 			}
 		default:
 			c.Count("validate:" + st.String())
@@ -261,4 +273,67 @@ func c06Depth(c *core.Ctx, mt protoreflect.MessageType, name string) {
 			c06Input(c, mt, name, in, 0, []string{"nest-deep-120/default"}, 1)
 		}
 	}
+}
+
+// onlyRepeatedStringExtOffends reports whether the decoded message holds invalid
+// UTF-8 in a validated repeated string extension and in no other validated
+// string (the recorded C13 defect: that value coder does not validate).
+func onlyRepeatedStringExtOffends(m protoreflect.Message) bool {
+	if m == nil {
+		return false
+	}
+	inRepExt, elsewhere := 0, 0
+	bad := func(s string) bool { return !utf8.ValidString(s) }
+	enforce := func(fd protoreflect.FieldDescriptor) bool {
+		if fd.Kind() != protoreflect.StringKind {
+			return false
+		}
+		x, ok := fd.(interface{ EnforceUTF8() bool })
+		return !ok || x.EnforceUTF8()
+	}
+	var walk func(m protoreflect.Message, depth int)
+	walk = func(m protoreflect.Message, depth int) {
+		if depth > 12 {
+			return
+		}
+		m.Range(func(fd protoreflect.FieldDescriptor, v protoreflect.Value) bool {
+			switch {
+			case fd.IsMap():
+				v.Map().Range(func(k protoreflect.MapKey, mv protoreflect.Value) bool {
+					if enforce(fd.MapKey()) && bad(k.String()) {
+						elsewhere++
+					}
+					if enforce(fd.MapValue()) && bad(mv.String()) {
+						elsewhere++
+					}
+					if fd.MapValue().Message() != nil {
+						walk(mv.Message(), depth+1)
+					}
+					return true
+				})
+			case fd.IsList():
+				for i := 0; i < v.List().Len(); i++ {
+					if enforce(fd) && bad(v.List().Get(i).String()) {
+						if fd.IsExtension() {
+							inRepExt++
+						} else {
+							elsewhere++
+						}
+					}
+					if fd.Message() != nil {
+						walk(v.List().Get(i).Message(), depth+1)
+					}
+				}
+			case fd.Message() != nil:
+				walk(v.Message(), depth+1)
+			default:
+				if enforce(fd) && bad(v.String()) {
+					elsewhere++
+				}
+			}
+			return true
+		})
+	}
+	walk(m, 0)
+	return inRepExt > 0 && elsewhere == 0
 }
